@@ -23,7 +23,7 @@ ASSUMPTIONS = [
     "random.uniform(a, b) lies between a and b; send_sd observed as a call (no remote argument = multicast group)",
     "repetition count 0..4 enumerated (the property's own bound); delays and TTL symbolic",
 ]
-BOUNDED = ["repetition count enumerated 0..4 (the property's own bound)"]
+BOUNDED = []
 EXPLANATION = "the find task is verified as a trace for every timing configuration, arbitrarily many watched filters (comprehension contract: an arbitrary filter contributes its FindService entry iff it has no live offer at that instant) and every change of the known offers between rounds"
 
 
